@@ -53,12 +53,16 @@ type uCase struct {
 }
 
 type uObs struct {
-	Hist  []uEntry   `json:"hist"`
-	St    string     `json:"st"`
-	Fs    []arena.PN `json:"fs"`
-	Err   string     `json:"err"`
-	Gamma int64      `json:"gamma"`
-	Fault *uFault    `json:"fault,omitempty"`
+	FaultRuns    int        `json:"fault_runs"`    // byte-offset read faults / truncations injected for this archive
+	FaultSilent  int        `json:"fault_silent"`  // ... that returned success without the whole archive materialised
+	FaultOutside int        `json:"fault_outside"` // ... that changed something outside dst
+	FaultNotes   []string   `json:"fault_notes"`
+	Hist         []uEntry   `json:"hist"`
+	St           string     `json:"st"`
+	Fs           []arena.PN `json:"fs"`
+	Err          string     `json:"err"`
+	Gamma        int64      `json:"gamma"`
+	Fault        *uFault    `json:"fault,omitempty"`
 }
 
 func unpackTokens(h *uHeader) ([]string, [][2]string) {
@@ -132,6 +136,94 @@ func statusOf(err error) string {
 	return "err"
 }
 
+var faultEvery = 8
+
+// unpackFaults re-runs the archive with the reader failing (or ending) at byte
+// offsets of the compressed stream: a successful return must have materialised
+// the whole archive, and nothing outside dst may change whatever happens.
+func unpackFaults(base string, h *uHeader, g *arena.Gamma, c *uCase, full *uObs, w int, n int64) string {
+	tb, _ := tarx.Tar(tarEntries(g, "/nonexistent-root", c.Hist), tarx.PAX)
+	_ = tb
+	fullFS := arena.FromList(full.Fs)
+	// offsets are chosen on the real stream built inside the arena (absolute targets depend on the arena path)
+	offsetsFor := func(l int) []int {
+		var offs []int
+		if os.Getenv("VERIF_TIER") == "thorough" || l <= 64 {
+			for i := 0; i < l; i++ {
+				offs = append(offs, i)
+			}
+			return offs
+		}
+		for i := 0; i < 12; i++ {
+			offs = append(offs, i*l/12)
+		}
+		for i := l - 12; i < l; i++ {
+			offs = append(offs, i)
+		}
+		return offs
+	}
+	probe, err := os.MkdirTemp(base, fmt.Sprintf("f%d-", w))
+	if err != nil {
+		return "mkdtemp: " + err.Error()
+	}
+	defer arena.RemoveAll(probe)
+	// the stream is built once per arena root; to keep absolute targets valid every fault run
+	// re-creates the arena at the same root
+	root := probe + "/r"
+	stream := func() []byte {
+		t, _ := tarx.Tar(tarEntries(g, root, c.Hist), tarx.PAX)
+		return tarx.GzipPlain(t)
+	}()
+	for _, off := range offsetsFor(len(stream)) {
+		for _, trunc := range []bool{false, true} {
+			arena.RemoveAll(root)
+			if err := os.Mkdir(root, 0755); err != nil {
+				return "mkdir: " + err.Error()
+			}
+			if err := g.Setup(root, h.FS0); err != nil {
+				return "setup: " + err.Error()
+			}
+			rd := &tarx.FaultReader{R: bytes.NewReader(stream), N: off, Err: errors.New("injected read fault"), Truncate: trunc}
+			p, _ := slug.NewPacker()
+			uerr := p.Unpack(rd, g.Abs(root, h.Dst))
+			snap := g.Snapshot(root)
+			full.FaultRuns++
+			// outside dst
+			dstKey := strings.Join(h.Dst, "/")
+			for _, pn := range h.FS0 {
+				k := strings.Join(pn.P, "/")
+				if k == "" || k == dstKey || strings.HasPrefix(k, dstKey+"/") {
+					continue
+				}
+				if o, ok := snap[k]; !ok || !arena.NodeEq(o, arena.FromList([]arena.PN{pn})[k]) {
+					full.FaultOutside++
+					full.FaultNotes = append(full.FaultNotes, fmt.Sprintf("offset %d trunc=%v: %s changed", off, trunc, k))
+				}
+			}
+			for k := range snap {
+				if k != dstKey && !strings.HasPrefix(k, dstKey+"/") {
+					if _, ok := arena.FromList(h.FS0)[k]; !ok {
+						full.FaultOutside++
+						full.FaultNotes = append(full.FaultNotes, fmt.Sprintf("offset %d trunc=%v: %s created", off, trunc, k))
+					}
+				}
+			}
+			if uerr == nil && full.St == "ok" && !arena.SameFS(snap, fullFS) {
+				full.FaultSilent++
+				full.FaultNotes = append(full.FaultNotes, fmt.Sprintf("offset %d trunc=%v: success with a partial tree", off, trunc))
+			}
+			if uerr == nil && full.St != "ok" {
+				full.FaultSilent++
+				full.FaultNotes = append(full.FaultNotes, fmt.Sprintf("offset %d trunc=%v: success although the complete stream is rejected", off, trunc))
+			}
+		}
+	}
+	if len(full.FaultNotes) > 8 {
+		full.FaultNotes = full.FaultNotes[:8]
+	}
+	return ""
+}
+
 func unpackMain() int {
 	props := strings.Split(*flagProps, ",")
 	var gammas []int64
@@ -180,6 +272,14 @@ func unpackMain() int {
 			acc.Infra(infra)
 			return
 		}
+		obs.FaultNotes = []string{}
+		if *flagMode == "faults" && int(n)%faultEvery == 0 && len(c.Hist) > 0 {
+			if msg := unpackFaults(base, hdr, g, &c, obs, w, n); msg != "" {
+				acc.Infra(msg)
+				return
+			}
+			acc.Extra("fault_runs", int64(obs.FaultRuns))
+		}
 		pred := arena.FromList(c.Fs)
 		ofs := arena.FromList(obs.Fs)
 		for _, wp := range c.Wild {
@@ -190,7 +290,7 @@ func unpackMain() int {
 				}
 			}
 		}
-		agree := obs.St == c.St && arena.SameFS(pred, ofs)
+		agree := obs.St == c.St && arena.SameFS(pred, ofs) && obs.FaultSilent == 0 && obs.FaultOutside == 0
 		key, _ := json.Marshal(struct {
 			H []uEntry
 			F *uFault
